@@ -25,3 +25,7 @@ const (
 func verifSkip(int) bool { return false }
 
 func verifSkipInline(int) bool { return false }
+
+func verifBareSetpath() bool { return false }
+
+func verifSetpathBare(any, []any) any { return nil }
